@@ -103,6 +103,21 @@ def check(ctx):
         r1.bad(V(r1.id, f.id, ident,
                  "iteration over %s is consumed by `%s`: %s — the result order depends on the hash seed / directory order"
                  % (s.source, s.call.name, s.why), s.call.file, s.call.line))
+    # dedup removes *adjacent* duplicates only: on data that was not sorted first, what survives depends on the discovery order of the items
+    # (moving an item between files changes the set of declarations)
+    for fid in sorted(reach):
+        f = P.fns[fid]
+        for c in f.calls:
+            if c.name in ("dedup", "dedup_by", "dedup_by_key") and "Vec" in (c.self_ty or c.path) and c.bb in f.reach_blocks and fid.startswith(("tauri_typegen", "cargo_tauri_typegen")):
+                base = U._base_local(f, c.args[0]) if c.args else None
+                sorted_before = False
+                for s_ in f.calls:
+                    if (s_.name or "").startswith("sort") and s_.args and U._base_local(f, s_.args[0]) == base and f.dominates(s_.bb, c.bb) and U._total_order(f, s_):
+                        sorted_before = True
+                if sorted_before:
+                    r1.ok("%s: %s on a vector sorted just before" % (short_path(fid), c.name))
+                else:
+                    r1.bad(V(r1.id, fid, "adjacent-dedup:%s" % c.name, "Vec::%s on data that is not sorted first keeps non-adjacent duplicates: the surviving set depends on the order in which items were discovered" % c.name, c.file, c.line))
     r1.require_floor(12, "reachable unordered-iteration consumption sites")
     rules.append(r1)
 
